@@ -322,7 +322,7 @@ static rc::Gen<Case> gen()
                 c.note += " length-lie"; break;
             case 4: b.resize(at); c.note += " truncated"; break;
             case 5: b.resize(r.range(0, std::min<size_t>(b.size(), 40))); c.note += " truncated-early"; break;
-            case 6: { const unsigned v = r.pick<unsigned>({0, 1, 2, 2, 3, 21, 21, 100, 300, 65535}); const size_t f = r.pick<size_t>({4, 6, 6, 6, 8, 10}); b[f] = static_cast<char>(v >> 8); b[f + 1] = static_cast<char>(v & 255); c.note += " count-lie"; break; }
+            case 6: { const unsigned v = r.coin(40) ? 65535u : r.pick<unsigned>({0, 1, 2, 2, 3, 21, 21, 100, 300, 2000}); const size_t f = r.pick<size_t>({4, 6, 6, 6, 8, 10}); b[f] = static_cast<char>(v >> 8); b[f + 1] = static_cast<char>(v & 255); c.note += " count-lie"; break; }
             case 7: b[at] = static_cast<char>(r.range(0, 255)); c.note += " byte-flip"; break;
             case 8: b.insert(at, r.bytes(r.range(1, 6))); c.note += " insert"; break;
             default: b.erase(at, r.range(1, 4)); c.note += " delete"; break;
